@@ -30,6 +30,9 @@ struct Core {
     msgs_per_sender: usize,
     drainers: usize,
     drains_per_drainer: usize,
+    /// the odd senders use ActorCell::send_serialized (cluster build only)
+    #[cfg_attr(not(feature = "alt"), allow(dead_code))]
+    serialized: bool,
 }
 
 /// (call stamp, return stamp, message, handed back)
@@ -48,13 +51,40 @@ fn core_body(c: Core) -> vsched::Body {
                     for k in 0..c.msgs_per_sender {
                         let m = (s * 10 + k + 1) as u32;
                         let call = vsched::call_stamp();
-                        let r = cell.send_message::<u32>(m);
-                        let ret = vsched::ret_stamp();
-                        let back = match r {
-                            Ok(()) => None,
-                            Err(MessagingErr::SendErr(x)) => Some(Ok(x)),
-                            Err(e) => Some(Err(format!("{e:?}"))),
-                        };
+                        #[cfg(feature = "alt")]
+                        let via_wire = c.serialized && s % 2 == 1;
+                        #[cfg(not(feature = "alt"))]
+                        let via_wire = false;
+                        let back;
+                        let ret;
+                        if via_wire {
+                            #[cfg(feature = "alt")]
+                            {
+                                use ractor::BytesConvertable;
+                                let r = cell.send_serialized(ractor::message::SerializedMessage::Cast { variant: String::new(), args: m.into_bytes(), metadata: None });
+                                ret = vsched::ret_stamp();
+                                back = match r {
+                                    Ok(()) => None,
+                                    Err(e) => match *e {
+                                        MessagingErr::SendErr(ractor::message::SerializedMessage::Cast { args, .. }) => Some(Ok(u32::from_bytes(args))),
+                                        other => Some(Err(format!("{other:?}"))),
+                                    },
+                                };
+                            }
+                            #[cfg(not(feature = "alt"))]
+                            {
+                                ret = vsched::ret_stamp();
+                                back = None;
+                            }
+                        } else {
+                            let r = cell.send_message::<u32>(m);
+                            ret = vsched::ret_stamp();
+                            back = match r {
+                                Ok(()) => None,
+                                Err(MessagingErr::SendErr(x)) => Some(Ok(x)),
+                                Err(e) => Some(Err(format!("{e:?}"))),
+                            };
+                        }
                         recs.push((call, ret, m, back));
                     }
                     recs
@@ -471,10 +501,10 @@ pub fn plan(tier: &str) -> Plan {
     };
     let mut units = Vec::new();
     let cores: Vec<(&str, Core, Option<usize>, usize)> = vec![
-        ("core/2senders-1drainer", Core { senders: 2, msgs_per_sender: 1, drainers: 1, drains_per_drainer: 1 }, None, 4),
-        ("core/1sender2msgs-2drainers", Core { senders: 1, msgs_per_sender: 2, drainers: 2, drains_per_drainer: 1 }, None, 4),
-        ("core/2senders-drain-twice", Core { senders: 2, msgs_per_sender: 1, drainers: 1, drains_per_drainer: 2 }, if thorough { None } else { Some(4) }, 8),
-        ("core/3senders-1drainer", Core { senders: 3, msgs_per_sender: 1, drainers: 1, drains_per_drainer: 1 }, Some(if thorough { 4 } else { 3 }), 8),
+        ("core/2senders-1drainer", Core { senders: 2, msgs_per_sender: 1, drainers: 1, drains_per_drainer: 1, serialized: false }, None, 4),
+        ("core/1sender2msgs-2drainers", Core { senders: 1, msgs_per_sender: 2, drainers: 2, drains_per_drainer: 1, serialized: false }, None, 4),
+        ("core/2senders-drain-twice", Core { senders: 2, msgs_per_sender: 1, drainers: 1, drains_per_drainer: 2, serialized: false }, if thorough { None } else { Some(4) }, 8),
+        ("core/3senders-1drainer", Core { senders: 3, msgs_per_sender: 1, drainers: 1, drains_per_drainer: 1, serialized: false }, Some(if thorough { 4 } else { 3 }), 8),
     ];
     for (name, c, bound, split) in cores {
         units.push(Unit::explore_split(Job::new(name, core_cfg.clone(), bound, core_body(c)), split));
@@ -487,7 +517,7 @@ pub fn plan(tier: &str) -> Plan {
             "core/2senders-1drainer+spurious-cas",
             weak,
             Some(if thorough { 4 } else { 3 }),
-            core_body(Core { senders: 2, msgs_per_sender: 1, drainers: 1, drains_per_drainer: 1 }),
+            core_body(Core { senders: 2, msgs_per_sender: 1, drainers: 1, drains_per_drainer: 1, serialized: false }),
         ),
         8,
     ));
@@ -501,6 +531,13 @@ pub fn plan(tier: &str) -> Plan {
     units.push(Unit::explore_split(Job::new("live/2senders-drain", live_cfg.clone(), Some(lb), live_body(2, false, false)), 4));
     units.push(Unit::explore_split(Job::new("live/2senders-drain_and_wait", live_cfg.clone(), Some(lb), live_body(2, false, true)), 4));
     units.push(Unit::explore_split(Job::new("live/selfsend-drain", live_cfg.clone(), Some(lb), live_body(1, true, false)), 4));
+    // senders that come in through ActorCell::send_serialized (what a cluster session does with a peer's cast)
+    for (name, core, bound) in [
+        ("alt/core/serialized+typed-1drainer", Core { senders: 2, msgs_per_sender: 1, drainers: 1, drains_per_drainer: 1, serialized: true }, None),
+        ("alt/core/2serialized+typed-1drainer", Core { senders: 4, msgs_per_sender: 1, drainers: 1, drains_per_drainer: 1, serialized: true }, Some(if thorough { 3 } else { 2 })),
+    ] {
+        units.push(crate::common::alt_unit(name.into(), core_cfg.clone(), bound, core_body(core), 8));
+    }
     // sends and drains issued re-entrantly while a message is being boxed (custom Message::box_message: only
     // possible in ractor's cluster build, so these run on the alt build of the harness)
     for drain_inside in [false, true] {
